@@ -191,6 +191,37 @@ func Pure(p *core.Prog, r *core.Report) {
 				if _, ok := x.Map.(*ssa.MakeMap); ok {
 					return
 				}
+				// a scratch map threaded through a recursion: a parameter that every call site fills with a map made
+				// for the purpose by a helper itself, or with the very same parameter (the recursive call)
+				if prm, isP := x.Map.(*ssa.Parameter); isP {
+					k := -1
+					for i, q := range f.Params {
+						if q == prm {
+							k = i
+						}
+					}
+					scratch, sites := true, 0
+					for _, caller := range p.Funcs {
+						core.EachInstr(caller, func(j ssa.Instruction) {
+							c, ok := j.(ssa.CallInstruction)
+							if !ok || core.StaticCallee(c) != f || k < 0 || k >= len(c.Common().Args) {
+								return
+							}
+							sites++
+							a := c.Common().Args[k]
+							if _, fresh := a.(*ssa.MakeMap); fresh {
+								return
+							}
+							if caller == f && a == ssa.Value(prm) {
+								return
+							}
+							scratch = false
+						})
+					}
+					if scratch && sites > 0 {
+						return
+					}
+				}
 				nW++
 				r.Bad(rule, "purity:"+fn+":mapupdate", p.Pos(x.Pos()), "a value helper updates a map it did not create")
 			}
